@@ -547,28 +547,92 @@ func hasTrueExtract(s *an.PathState, callee string, idx int) bool {
 // checkResultRule: in Check, the returned error becomes nil only on loop iterations whose facts include the
 // required conditions. needs ⊆ {valid, admin, supported}.
 func checkResultRule(c *an.Ctx, p *an.Prog, check *ssa.Function, rule string, needs []string) {
-	// the result phi: a header phi whose value is returned
+	// the loop-carried result: a header phi that decides whether Check returns nil — either the error that is returned
+	// itself, or a flag under which the function returns nil after the loop
 	var phi *ssa.Phi
+	accepting := "nil" // the constant value of phi that stands for "the store is fine"
+	var exitBad []string
+	errT := types.Universe.Lookup("error").Type()
 	for _, h := range loopHeaders(check) {
 		for _, in := range h.Instrs {
 			ph, ok := in.(*ssa.Phi)
 			if !ok {
 				break
 			}
-			if !types.Identical(ph.Type(), types.Universe.Lookup("error").Type()) {
+			isErr := types.Identical(ph.Type(), errT)
+			isBool := false
+			if bt, ok := ph.Type().Underlying().(*types.Basic); ok && bt.Kind() == types.Bool {
+				isBool = true
+			}
+			if !isErr && !isBool {
 				continue
 			}
-			for _, r := range *ph.Referrers() {
-				switch r.(type) {
-				case *ssa.Return, *ssa.Store:
-					phi = ph
+			uses, pol := 0, ""
+			var bad []string
+			an.EnumPaths(check, h, nil, func(s *an.PathState) {
+				ret := lastReturn(s)
+				if ret == nil || len(ret.Args) != 1 {
+					return
 				}
+				r := ret.Args[0]
+				pt := s.T(ph)
+				switch {
+				case isErr && r.K == pt.K:
+					uses++
+				case s.NonNil(r) || an.KnownNonNil(r):
+				case isBool && r.IsConst("nil") && s.IsTrue(pt):
+					uses++
+					if pol == "false" {
+						bad = append(bad, "nil is returned both when the flag is set and when it is not")
+					}
+					pol = "true"
+				case isBool && r.IsConst("nil") && s.IsFalse(pt):
+					uses++
+					if pol == "true" {
+						bad = append(bad, "nil is returned both when the flag is set and when it is not")
+					}
+					pol = "false"
+				default:
+					bad = append(bad, fmt.Sprintf("exit path %s returns %s, which may be nil, independently of what the loop found", s.BlockPath(), r.K))
+				}
+			})
+			if uses == 0 {
+				continue
+			}
+			phi = ph
+			exitBad = bad
+			if isBool {
+				accepting = pol
 			}
 		}
 	}
 	if phi == nil {
-		c.Undecided(rule, fnKey(check)+"|result", "-", "UNRESOLVED: cannot find the loop-carried result of Check (a header phi of type error that is returned)")
+		c.Undecided(rule, fnKey(check)+"|result", "-", "UNRESOLVED: cannot find the loop-carried result of Check (a header phi — the returned error, or a flag deciding whether nil is returned)")
 		return
+	}
+	// initial value: not accepting
+	for i, pr := range phi.Block().Preds {
+		if phi.Block().Dominates(pr) {
+			continue // back edge
+		}
+		e := phi.Edges[i]
+		okInit := false
+		if accepting == "nil" {
+			if u, ok := e.(*ssa.UnOp); ok {
+				if g, ok := u.X.(*ssa.Global); ok && an.NonNilGlobal(g) {
+					okInit = true
+				}
+			}
+			if cl, ok := e.(*ssa.Call); ok {
+				n := an.CalleeName(cl)
+				okInit = n == "errors.New" || n == "fmt.Errorf"
+			}
+		} else if k, ok := e.(*ssa.Const); ok && k.Value != nil {
+			okInit = (k.Value.String() == "true") != (accepting == "true")
+		}
+		if !okInit {
+			exitBad = append(exitBad, "the result's value before the first entry is not a definite failure: an empty directory would pass the check")
+		}
 	}
 	hdr := phi.Block()
 	nset := 0
@@ -579,7 +643,7 @@ func checkResultRule(c *an.Ctx, p *an.Prog, check *ssa.Function, rule string, ne
 		if in == nil {
 			return
 		}
-		if !in.IsConst("nil") {
+		if !in.IsConst(accepting) {
 			// the only other admissible value is "unchanged" (the loop-carried value itself): anything else could
 			// turn an already accepted store back into a rejected one, depending on the directory's iteration order
 			if in.K != s.T(phi).K {
@@ -610,6 +674,7 @@ func checkResultRule(c *an.Ctx, p *an.Prog, check *ssa.Function, rule string, ne
 	if !res.Complete {
 		bad = append(bad, "path limit")
 	}
+	bad = append(bad, exitBad...)
 	if nset == 0 {
 		c.Undecided(rule, fnKey(check)+"|result=nil", p.Pos(phi.Pos()), "UNRESOLVED: no loop iteration sets Check's result to nil")
 		return
